@@ -8,11 +8,70 @@ from ..sched_props import (READY, FUTS, TASKS, LOCKS, make_stream, ok_obs)
 from . import c11
 
 
+def _sleeps(n, rest):
+    return rest if n == 0 else ["do", ["sleep0"], _sleeps(n - 1, rest)]
+
+
+def leave_cases(tier):
+    """a queued lock-holder loses inherited priority because the waiter it inherited from LEAVES
+    (cancelled, or interrupted by task_throw) before the hand-over: H holds L0 (blocked on an event);
+    W1 holds L1 and queues on L0; W2 queues on L0; a chain C_depth .. C_1 builds up behind L1
+    (C_k holds L_{k+1} and queues on L_k), the far end being urgent; after j steps one chain task is
+    made to leave; then H releases.  The hand-over must follow the effective priorities of that moment."""
+    sect = c11.sect
+    for loop in ("stock", "prio"):
+        for depth in ((1, 2) if tier == "quick" else (1, 2, 3)):
+            for (pw1, pw2, px) in ((5, 3, -5), (5, 3, 0), (3, 3, -5), (5, 4, 4), (2, 5, -5), (5, 3, 4)):
+                for j in ((0, 2) if tier == "quick" else (0, 1, 2, 3)):
+                    for victim in range(depth):
+                        for fault in ("cancel", "throw"):
+                            h = sect(0, ["do", ["eventwait", 0], ["end"]])
+                            acts = [["spawn", ["prio", [7, 1]], h], ["step"],
+                                    ["spawn", ["prio", [pw1, 1]], sect(1, sect(0, _sleeps(1, ["end"])))], ["step"],
+                                    ["spawn", ["prio", [pw2, 1]], sect(0, _sleeps(1, ["end"]))], ["step"]]
+                            ids, tid = {}, 3
+                            for k in range(depth, 0, -1):
+                                body = (sect(k, _sleeps(1, ["end"])) if k == depth
+                                        else sect(k + 1, sect(k, _sleeps(1, ["end"]))))
+                                if k == depth and fault == "throw":
+                                    how = ["py"]          # task_throw needs a Python task; it counts as priority 0
+                                else:
+                                    how = ["prio", [px if k == depth else 6, 1]]
+                                acts += [["spawn", how, body], ["step"]]
+                                ids[k] = tid
+                                tid += 1
+                            if fault == "throw" and victim + 1 != depth:
+                                continue
+                            acts += [["step"]] * j
+                            v = ids[victim + 1]
+                            acts.append(["do", ["cancel", v]] if fault == "cancel"
+                                        else ["do", ["throw", v, ["user", 1]]])
+                            acts += [["step"]] * 2 + [["do", ["eventset", 0]]] + [["step"]] * (14 + 4 * depth)
+                            yield {"loop": loop, "locks": ["prio"] * (depth + 2), "conds": [], "events": 1, "acts": acts}
+
+
+def gen_leaving(rng):
+    """the C11 generator with cancellations of arbitrary tasks sprinkled in"""
+    c = c11.gen_case(rng, loops=("stock", "prio"))
+    out, nt = [], 0
+    for a in c["acts"]:
+        out.append(a)
+        if a[0] == "spawn":
+            nt += 1
+        elif a[0] == "step" and nt and rng.random() < 0.12:
+            out.append(["do", ["cancel", rng.randrange(nt)]])
+    c["acts"] = out
+    return c
+
+
 def gen(rng, tier):
     yield from c11.chain_cases(tier)
     yield from c11.window_cases(tier)
-    for _ in range(450 if tier == "quick" else 2500):
+    yield from leave_cases(tier)
+    for _ in range(350 if tier == "quick" else 2000):
         yield c11.gen_case(rng, loops=("stock", "prio"))
+    for _ in range(150 if tier == "quick" else 800):
+        yield gen_leaving(rng)
 
 
 def oracle(case, ob):
@@ -65,8 +124,9 @@ PROP = Prop(
     streams=[make_stream("handover", gen, oracle)],
     rule="the C11 generator (lock chains of length 1..4 with all priority pairs of late waiters; random programs with "
          "2..6 contenders, ties, ints/floats/Priority enum members, plain tasks, urgent late arrivals that raise a "
-         "queued waiter's priority by inheritance) on the stock and the priority loop; every hand-over (a waiter's "
+         "queued waiter's priority by inheritance; waiters that leave by cancellation / task_throw while a queued "
+         "lock-holder inherits from them, at every depth of a lock chain) on the stock and the priority loop; every hand-over (a waiter's "
          "future going from pending to result) is judged; non-trivial: >=4 actions of >=3 kinds",
-    assumptions=["within the property's quantifier no waiter's effective priority becomes less urgent while it is queued "
-                 "(no cancellation/interrupts here; those are C13)"],
+    assumptions=["live waiter = entry future pending and its task still blocked on it; effective priorities are read "
+                 "in the state just before the action that wakes a waiter"],
 )
